@@ -151,7 +151,7 @@ def directed():
     return out
 
 
-def quiescence_oracle(lines):
+def quiescence_oracle(lines, uact=()):
     """C08 at quiescence (C08_quiescent_all_reported): at a Q that follows a long drain (ten or more rounds of "time passes,
     poll", nothing but K/P/R/Q in the last 40 operations) the discard counts reported so far equal the discarded statements"""
     rec = bg.parse_run(lines)
@@ -161,6 +161,8 @@ def quiescence_oracle(lines):
 
     def front(w, res):
         nonlocal dropped
+        if len(w) > 1 and w[1].isdigit() and int(w[1]) in uact:
+            return     # a thread of the blocking (unbounded) frontend never discards
         if w[0] in ("L", "R") and "ret=0" in res:
             dropped += 1
         elif w[0] in ("LS", "LN", "LB") and "ev=1" in res and res.endswith("bytes=0"):
@@ -174,7 +176,7 @@ def quiescence_oracle(lines):
             elif e.startswith("n:dropped:"):
                 reported += int(e.split(":")[2])
         front(w, res)
-        if w[0] == "R" and res.startswith("id=") and "ret=0" not in res and res.endswith("bytes=0") and "ev=1" in res:
+        if w[0] == "R" and int(w[1]) not in uact and res.startswith("id=") and "ret=" not in res and res.endswith("bytes=0") and "ev=1" in res:
             dropped += 1      # a stalled static macro that was refused when resumed
         if w[0] == "Q":
             before = hist[-260:]
@@ -188,7 +190,7 @@ def quiescence_oracle(lines):
 
 
 def all_oracles(lines, uact):
-    v = list(bg.oracles(lines)) + quiescence_oracle(lines)
+    v = list(bg.oracles(lines)) + quiescence_oracle(lines, uact)
     out = []
     for p, msg in v:
         out.append((p, msg))
